@@ -91,6 +91,7 @@ Delims(c, v) ==
                           [] c.style = "form" /\ c.explode -> {} [] OTHER -> {","})
    ELSE IF v.t = "obj" THEN (CASE c.style = "deepObject" -> {"[", "]"}
                                [] c.in = "query" /\ c.explode -> {}                \* one query pair per property, each escaped
+                               [] c.in = "query" -> {","}                          \* form, not exploded: name,value,name,value
                                [] c.in = "path" -> {",", "=", ".", ";"}
                                [] OTHER -> {",", "=", ".", ";", "[", "]"})
    ELSE {}
